@@ -135,6 +135,12 @@ static void do_op(Exec &x, const json &op) {
     }
     if (in_early_window(x)) return;                              // environment restriction (see header comment)
     if (o == "init") {
+        // cleanup() drops the callback: like an application, install it (again) with every initialize()
+        x.al->setCallback([&x] {
+            // the alarm re-arms before this callback: cur_tg still holds the instant this call stands for
+            x.last_fired = x.cur_tg;
+            vh::T().printf("{\"e\":\"Fire\",%s}", post(x).c_str());
+        });
         bool r = false;
         std::string c;
         if (x.kind == "weekly") {
@@ -202,11 +208,6 @@ static void run_script(const json &sc) {
     else if (x.kind == "oneshot") x.al = x.oneshot = new ProbeOneshot(x.loop);
     else if (x.kind == "workday") { x.cal = new alarm::WorkdayCalendar; x.al = x.workday = new ProbeWorkday(x.loop); }
     else x.al = x.cron = new ProbeCron(x.loop);
-    x.al->setCallback([&x] {
-        // the alarm re-arms before this callback: cur_tg still holds the instant this call stands for
-        x.last_fired = x.cur_tg;
-        vh::T().printf("{\"e\":\"Fire\",%s}", post(x).c_str());
-    });
     vh::T().printf("{\"e\":\"Start\",\"kind\":\"%s\",\"sys\":%d,%s}", x.kind.c_str(), g_sysoff, post(x).c_str());
 
     // in-loop driver: one script step per loop iteration (timers -> descriptors -> this task); two idle passes at the end
